@@ -14,39 +14,46 @@
    scheduling point).  The model must be able to perform, for every logged atomic access, a transition
    of the same thread with the same location, the same kind and the same abstract old and new value.
 
-   LOG FORMAT (one record per line, blank-separated; '#' starts a comment line)
-     H <heap id> <owner tid> <backing 0|1>
-         a heap that exists before the first step (ids are small numbers chosen by the harness)
-     G <page id> <heap id> <reserved> <capacity> <used> <in_full 0|1> <flag> : <free idx...> : <local idx...> : <tf idx...>
-         a page that exists before the first step, with its (owner-private and shared) lists as block
-         indices; the owner is the owner of the heap
-     B <tid> <page id> <idx>
-         thread <tid>'s program holds block (page,idx) before the first step (a live block)
-     P <tid> <call> ...
-         the program of thread <tid>, one line per API call, in program order.  Calls:
-           malloc <page id> <idx>        (the block the call returned; the page may be fresh)
-           free <page id> <idx>
-           give <page id> <idx> <to tid> (hand-off between virtual threads; no allocator code runs)
-           collect <heap id> <force 0|1>
-           delete <heap id>
-           newheap <heap id>
-         P lines are informative for the replay (they bound which operations a thread may start);
-         the S lines are what is compared.
+   LOG FORMAT (one record per line, blank-separated; lines starting with '#' are comments).  Ids of
+   threads, pages and heaps are small decimal numbers chosen by the harness; a block is written
+   <page>.<idx> (idx = (block address - page_start) / block_size).
+     H <heap> <owner tid> <backing 0|1>
+         a heap that exists (before the first step, or created by the preceding call).
+     G <page> <heap|-> <owner tid> <reserved> <capacity> <used> <in_full 0|1> <flag 0..3> : <free idx...> : <local_free idx...> : <tf idx...>
+         snapshot of a page taken while its owner thread is between two API calls (after its R line, before
+         its next A line); other threads may be anywhere.  A page the
+         replay does not know yet is created; for a known page the SHARED part (flag, thread-free list, heap)
+         must equal the model's, and the owner-private part (free, local_free, used, capacity, reserved,
+         in_full) is taken over from the snapshot: owner-private steps that touch no shared word (malloc fast
+         path, local free, extend, retire decisions) are not in the log, so the private part is re-synchronised
+         at these points; `inv_b` is evaluated on the result (the invariant on the real state).
+         `G <page> dead` : the page has been freed.
+     B <tid> <page>.<idx>
+         thread <tid>'s program holds this live block (initially, or returned by the preceding malloc).
+     P <tid> <text...>
+         the program of thread <tid> (informative only; echoed in mismatch reports).
+     A <tid> <call> <args...>
+         thread <tid> starts an API call.  Calls: malloc | free <page>.<idx> | give <page>.<idx> <to tid> |
+         collect <heap> <force 0|1> | delete <heap> | newheap <heap>, or a model operation written
+         op <name> <numeric args...> (names as in Model/TFree.v: Fresh p h res n, Extend p n, Pop p,
+         Collect p force, ToFull p, Partial h, DelayedAll h, PageFree p, HeapCollect h force, Never p).
+     R <tid>
+         the call of thread <tid> has returned: the model thread must be able to become idle without a further
+         atomic step.
      S <tid> <kind> <loc> <id> <old flag> <old ids...> -> <new flag> <new ids...>
          one atomic access, in global (scheduler) order.
            kind = L (load) | C (successful CAS) | F (failed CAS, spurious or not) | W (store)
-           loc  = tf (page->xthread_free, id = page id; flag 0..3, ids = blocks of the list, head first,
-                      each block written <idx> because all blocks of the list belong to the page)
-                | heap (page->xheap, id = page id; flag is 0 and ids is the single heap id, or empty for NULL)
-                | del (heap->thread_delayed_free, id = heap id; flag 0; ids = blocks written <page>.<idx>)
-         Loads of page->xheap by the owning thread (mi_page_heap(page) in queue code) are not modelled:
-         they are accepted if the value equals the model's current value and otherwise ignored.
+           loc  = tf   page->xthread_free, id = page; flag 0..3; ids = block indices of the list, head first
+                | heap page->xheap, id = page; flag 0; ids = the heap id, or nothing for NULL
+                | del  heap->thread_delayed_free, id = heap; flag 0; ids = blocks <page>.<idx>, head first
+         Loads of page->xheap by the page's owner (mi_page_heap(page) in queue code) are not modelled: they are
+         accepted when the value equals the model's and otherwise reported.
      Q
-         a quiescent point: every thread is between API calls; the model state set is pruned to states
-         in which every thread is idle.
-   Because the sub-steps of an API call that touch no shared location (which page malloc inspects,
-   retire decisions ...) are not in the log, the replay keeps the SET of model states that are
-   consistent with the log so far (bounded); it reports MISMATCH when the set becomes empty. *)
+         a quiescent point: every thread is between API calls.
+   Because the sub-steps of an API call that touch no shared location are not in the log, the replay keeps the
+   SET of model states consistent with the log so far (bounded; idle owners may start any sub-operation of the
+   current call whose first atomic access matches); it reports `MISMATCH` when the set becomes empty, i.e.
+   when the model cannot perform the logged access with the same old and new abstract value. *)
 open BinNums
 open Util
 open TFree
@@ -319,3 +326,303 @@ let sim records mismatches =
   with End_of_file -> ())
 
 let () = Modes.register "tfree-sim" sim
+
+(* ================================================================================================ *)
+(* log output (used by tfree-genlog: the model writes a log in the lockstep format; self-test of the  *)
+(* replay and a reference for the real-code scheduler)                                               *)
+(* ================================================================================================ *)
+let sids l = String.concat " " (L.map (fun (_, x) -> string_of_int (i x)) l)
+let sbids l = String.concat " " (L.map sb l)
+let s_aval = function
+  | AvTF (f, l) -> sflag f ^ (if l = [] then "" else " " ^ sids l)
+  | AvHeap None -> "0"
+  | AvHeap (Some h) -> "0 " ^ string_of_int (i h)
+  | AvDel l -> "0" ^ (if l = [] then "" else " " ^ sbids l)
+let s_event (t : coq_N) (e : event) =
+  let k = match e.ev_kind with EvLoad -> "L" | EvCasOk -> "C" | EvCasFail -> "F" | EvStore -> "W" in
+  let (loc, id) = match e.ev_loc with LTF p -> ("tf", p) | LHeap p -> ("heap", p) | LDel h -> ("del", h) in
+  Printf.sprintf "S %d %s %s %d %s -> %s" (i t) k loc (i id) (s_aval e.ev_old) (s_aval e.ev_new)
+let s_page (p : coq_N) (pg : page) =
+  if not pg.pg_alive then Printf.sprintf "G %d dead" (i p) else
+  Printf.sprintf "G %d %s %d %d %d %d %d %s : %s : %s : %s" (i p) (sopt pg.pg_heap) (i pg.pg_tid) (i pg.pg_res) (i pg.pg_cap)
+    (i pg.pg_used) (if pg.pg_full then 1 else 0) (sflag pg.pg_flag) (sids pg.pg_free) (sids pg.pg_lfree) (sids pg.pg_tf)
+let s_op = function
+  | OpHeapNew h -> Printf.sprintf "newheap %d" (i h)
+  | OpFree (b, _) -> "free " ^ sb b
+  | OpGive (b, t) -> Printf.sprintf "give %s %d" (sb b) (i t)
+  | OpFresh (p, h, r, k) -> Printf.sprintf "op Fresh %d %d %d %d" (i p) (i h) (i r) (i k)
+  | OpExtend (p, k) -> Printf.sprintf "op Extend %d %d" (i p) (i k)
+  | OpPop p -> Printf.sprintf "op Pop %d" (i p)
+  | OpCollect (p, f) -> Printf.sprintf "op Collect %d %d" (i p) (if f then 1 else 0)
+  | OpToFull p -> Printf.sprintf "op ToFull %d" (i p)
+  | OpPartial h -> Printf.sprintf "op Partial %d" (i h)
+  | OpDelayedAll h -> Printf.sprintf "op DelayedAll %d" (i h)
+  | OpPageFree p -> Printf.sprintf "op PageFree %d" (i p)
+  | OpHeapCollect (h, f) -> Printf.sprintf "op HeapCollect %d %d" (i h) (if f then 1 else 0)
+  | OpHeapDelete h -> Printf.sprintf "delete %d" (i h)
+  | OpNever p -> Printf.sprintf "op Never %d" (i p)
+
+let genlog records mismatches =
+  (try
+    while true do
+      let line = input_line stdin in
+      match split_ws line with
+      | seed :: rest ->
+        incr records;
+        let seed = Int64.of_string seed in
+        let maxsteps = match rest with m :: _ -> int_of_string m | [] -> 300 in
+        rng := seed;
+        let nowners = 1 + rnd 2 in
+        let nthreads = nowners + 2 + rnd 3 in
+        let npages = 1 + rnd 3 and nheaps = 2 + rnd 2 in
+        let c = ref (match init with Ok c -> c | Err _ -> assert false) in
+        let busy = Hashtbl.create 8 in
+        let step t ch =
+          (match ch with COp o when (gett !c t).th_stk = [] -> (match cstep !c t ch with RNone -> () | _ -> Printf.printf "A %d %s\n" (i t) (s_op o)) | _ -> ());
+          match cstep !c t ch with
+          | RNone -> false
+          | RErr e -> Printf.printf "# model error %d\n" (i e); false
+          | ROk (c', ev) ->
+            (match ev with Some e -> print_endline (s_event t e) | None -> ());
+            (match ch with COp (OpHeapNew h) -> let hp = geth c' h in Printf.printf "H %d %d %d\n" (i h) (i hp.hp_owner) (if hp.hp_backing then 1 else 0) | _ -> ());
+            (match ch with COp _ -> Hashtbl.replace busy t () | _ -> ());
+            c := c';
+            if (gett c' t).th_stk = [] && Hashtbl.mem busy t then begin
+              Hashtbl.remove busy t;
+              (* the call returned: snapshot the pages this thread owns *)
+              Printf.printf "R %d\n" (i t);
+              L.iter (fun (p, pg) -> if pg.pg_tid = t || not pg.pg_alive then print_endline (s_page p pg)) c'.c_pg
+            end;
+            true in
+        for o = 0 to nowners - 1 do ignore (step (n o) (COp (OpHeapNew (n o)))) done;
+        for h = nowners to nheaps - 1 do ignore (step (n (rnd nowners)) (COp (OpHeapNew (n h)))) done;
+        for p = 0 to npages - 1 do
+          let h = rnd nheaps in
+          let owner = (geth !c (n h)).hp_owner in
+          let res = 2 + rnd 3 in
+          ignore (step owner (COp (OpFresh (n p, n h, n res, n (1 + rnd res)))))
+        done;
+        let spur = 5 + rnd 30 in
+        for _ = 1 to maxsteps do
+          let t = n (rnd nthreads) in
+          if (gett !c t).th_stk = [] then begin
+            let cands = candidates !c t nthreads npages nheaps in
+            if cands <> [] then begin
+              let o = pick cands in
+              (match o with
+               | OpPop p -> (* malloc: the log tells the block *)
+                 let before = (gett !c t).th_held in
+                 if step t (COp o) then
+                   (match (gett !c t).th_held with b :: r when r = before -> Printf.printf "B %d %s\n" (i t) (sb b) | _ -> ())
+               | OpGive (b, t') -> if step t (COp o) then ()
+               | _ -> ignore (step t (COp o)))
+            end
+          end else ignore (step t (if chance spur then CAlt else CGo))
+        done;
+        let guard = ref 0 in
+        while not (quiescent !c) && !guard < 100000 do
+          incr guard; L.iter (fun (t, th) -> if th.th_stk <> [] then ignore (step t CGo)) !c.c_th
+        done;
+        print_endline "Q"
+      | _ -> ()
+    done
+  with End_of_file -> ())
+
+let () = Modes.register "tfree-genlog" genlog
+
+(* ================================================================================================ *)
+(* tfree-lockstep                                                                                    *)
+(* ================================================================================================ *)
+type lval = { lflag : int; lids : string list }
+type lstep = { ltid : coq_N; lkind : string; lloc : string; lid : coq_N; lold : lval; lnew : lval }
+
+let parse_block (s : string) : bid =
+  match String.split_on_char '.' s with
+  | [p; x] -> (n (int_of_string p), n (int_of_string x))
+  | _ -> failwith ("bad block " ^ s)
+let parse_val = function
+  | f :: ids -> { lflag = int_of_string f; lids = ids }
+  | [] -> failwith "missing value"
+let rec split_at tok acc = function
+  | x :: r when x = tok -> (L.rev acc, r)
+  | x :: r -> split_at tok (x :: acc) r
+  | [] -> (L.rev acc, [])
+
+let aval_matches (loc : string) (id : coq_N) (v : aval) (l : lval) : bool =
+  match v, loc with
+  | AvTF (f, bl), "tf" -> i (flag_num f) = l.lflag && L.map (fun (_, x) -> string_of_int (i x)) bl = l.lids
+                          && L.for_all (fun (p, _) -> p = id) bl
+  | AvHeap None, "heap" -> l.lids = []
+  | AvHeap (Some h), "heap" -> l.lids = [string_of_int (i h)]
+  | AvDel bl, "del" -> L.map sb bl = l.lids
+  | _, _ -> false
+let event_matches (e : event) (st : lstep) : bool =
+  let k = match e.ev_kind with EvLoad -> "L" | EvCasOk -> "C" | EvCasFail -> "F" | EvStore -> "W" in
+  let (loc, id) = match e.ev_loc with LTF p -> ("tf", p) | LHeap p -> ("heap", p) | LDel h -> ("del", h) in
+  k = st.lkind && loc = st.lloc && id = st.lid && aval_matches loc id e.ev_old st.lold && aval_matches loc id e.ev_new st.lnew
+
+let max_cands = 512
+let dedupe (l : cfg list) : cfg list =
+  let l = L.sort_uniq compare l in
+  if L.length l > max_cands then L.filteri (fun k _ -> k < max_cands) l else l
+
+(* all states thread t can reach by tau steps only (including the starting state), bounded *)
+let tau_closure (c : cfg) (t : coq_N) : cfg list =
+  let seen = ref [] in
+  let rec go c depth =
+    if depth > 64 || L.mem c !seen then () else begin
+      seen := c :: !seen;
+      if (gett c t).th_stk <> [] then
+        L.iter (fun ch -> match cstep c t ch with ROk (c', None) -> go c' (depth + 1) | _ -> ()) [CGo; CAlt]
+    end in
+  go c 0; !seen
+
+(* the operations an idle thread may start so that its first atomic access is at location (loc, id) *)
+let start_candidates (c : cfg) (t : coq_N) (call : string list) (st : lstep) : op list =
+  let ops = ref [] in
+  let add o = ops := o :: !ops in
+  (match st.lloc with
+   | "tf" ->
+     let p = st.lid in
+     add (OpCollect (p, false)); add (OpCollect (p, true)); add (OpToFull p); add (OpNever p)
+   | "del" ->
+     let h = st.lid in
+     add (OpPartial h); add (OpDelayedAll h); add (OpHeapCollect (h, false)); add (OpHeapCollect (h, true)); add (OpHeapDelete h)
+   | "heap" ->
+     let p = st.lid in
+     add (OpPageFree p);
+     (match st.lnew.lids with
+      | [h] -> (* a fresh page: its private part is taken from the next G line *) add (OpFresh (p, n (int_of_string h), n 65535, n 1))
+      | _ -> ())
+   | _ -> ());
+  (match call with
+   | ["op"; "Fresh"; p; h; r; k] -> add (OpFresh (n (int_of_string p), n (int_of_string h), n (int_of_string r), n (int_of_string k)))
+   | _ -> ());
+  !ops
+
+let lockstep records mismatches =
+  let cands : cfg list ref = ref [ (match init with Ok c -> c | Err _ -> assert false) ] in
+  let calls : (coq_N, string list) Hashtbl.t = Hashtbl.create 8 in
+  let lineno = ref 0 and steps = ref 0 and reported = ref 0 and inv_checked = ref 0 in
+  let maxset = ref 1 in
+  let progs = Buffer.create 256 in
+  let fail msg =
+    incr mismatches; incr reported;
+    if !reported <= 10 then begin
+      Printf.printf "MISMATCH tfree-lockstep line %d: %s\n" !lineno msg;
+      (match !cands with c :: _ when !reported <= 2 -> Printf.printf "  one model state before the line:\n%s" (scfg c) | _ -> ())
+    end in
+  let update f what =
+    let next = dedupe (L.concat_map f !cands) in
+    if next = [] then fail what else begin cands := next; if L.length next > !maxset then maxset := L.length next end in
+  let check_inv () =
+    incr inv_checked;
+    let good = L.filter inv_b !cands in
+    if good = [] then (match !cands with c :: _ -> fail (Printf.sprintf "inv_b part %d fails in every candidate state" (i (inv_fail c))) | [] -> ())
+    else cands := good in
+  let apply_op (c : cfg) (t : coq_N) (o : op) : cfg list = match cstep c t (COp o) with ROk (c', _) -> [c'] | _ -> [] in
+  (try
+    while true do
+      let line = input_line stdin in
+      incr lineno;
+      match split_ws line with
+      | [] -> ()
+      | w :: _ when String.length w > 0 && w.[0] = '#' -> ()
+      | "P" :: _ -> Buffer.add_string progs (line ^ "\n")
+      | ["H"; h; owner; backing] ->
+        incr records;
+        let h = n (int_of_string h) and owner = n (int_of_string owner) and backing = backing = "1" in
+        update (fun c ->
+          let hp = geth c h in
+          if hp_alive hp then (if hp.hp_owner = owner && hp.hp_backing = backing then [c] else [])
+          else
+            let c1 = seth c h { hp_st = HAlive; hp_owner = owner; hp_backing = backing; hp_del = [] } in
+            let th = gett c1 owner in
+            [ if backing then sett c1 owner { th with th_backing = Some h } else c1 ]) "heap declaration inconsistent with the model"
+      | "G" :: p :: "dead" :: _ ->
+        incr records;
+        let p = n (int_of_string p) in
+        update (fun c -> if (getp c p).pg_alive then [] else [c]) "page is freed in the implementation but alive in the model"
+      | "G" :: p :: heap :: owner :: res :: cap :: used :: full :: flag :: ":" :: rest ->
+        incr records;
+        let p = n (int_of_string p) in
+        let (fr, rest) = split_at ":" [] rest in
+        let (lf, tf) = split_at ":" [] rest in
+        let blk x = (p, n (int_of_string x)) in
+        let heap = if heap = "-" then None else Some (n (int_of_string heap)) in
+        let fl = match int_of_string flag with 0 -> UseD | 1 -> Freeing | 2 -> NoD | _ -> NeverD in
+        let snap = { pg_alive = true; pg_tid = n (int_of_string owner); pg_flag = fl; pg_tf = L.map blk tf; pg_heap = heap;
+                     pg_free = L.map blk fr; pg_lfree = L.map blk lf; pg_used = n (int_of_string used);
+                     pg_cap = n (int_of_string cap); pg_res = n (int_of_string res); pg_full = (full = "1") } in
+        update (fun c ->
+          let pg = getp c p in
+          if not pg.pg_alive then [setp c p snap]
+          else if pg.pg_flag = snap.pg_flag && pg.pg_tf = snap.pg_tf && pg.pg_heap = snap.pg_heap && pg.pg_tid = snap.pg_tid
+          then [setp c p snap] else []) "page snapshot: the shared part (flag / thread-free list / heap) differs from the model";
+        check_inv ()
+      | ["B"; t; b] ->
+        incr records;
+        let t = n (int_of_string t) and b = parse_block b in
+        update (fun c -> let th = gett c t in
+                 if mem_bid b th.th_held then [c] else [sett c t { th with th_held = b :: th.th_held }]) "B"
+      | "A" :: t :: call ->
+        incr records;
+        let t = n (int_of_string t) in
+        Hashtbl.replace calls t call;
+        (match call with
+         | ["free"; b] ->
+           let b = parse_block b in
+           update (fun c -> apply_op c t (OpFree (b, false)) @ apply_op c t (OpFree (b, true))) "free of a block the model thread does not hold / thread not idle"
+         | ["give"; b; t'] ->
+           update (fun c -> apply_op c t (OpGive (parse_block b, n (int_of_string t')))) "give"
+         | ["newheap"; h] -> update (fun c -> apply_op c t (OpHeapNew (n (int_of_string h)))) "newheap"
+         | ["delete"; h] -> update (fun c -> apply_op c t (OpHeapDelete (n (int_of_string h)))) "delete: not enabled in the model"
+         | ["op"; "Pop"; p] -> update (fun c -> apply_op c t (OpPop (n (int_of_string p)))) "Pop"
+         | ["op"; "Extend"; p; k] -> update (fun c -> apply_op c t (OpExtend (n (int_of_string p), n (int_of_string k)))) "Extend"
+         | _ -> ())
+      | ["R"; t] ->
+        incr records;
+        let t = n (int_of_string t) in
+        Hashtbl.remove calls t;
+        update (fun c -> L.filter (fun c' -> (gett c' t).th_stk = []) (tau_closure c t))
+          "the call returned but the model thread still has atomic steps to perform";
+        check_inv ()
+      | ["Q"] ->
+        incr records;
+        update (fun c -> if quiescent c then [c] else []) "quiescent point: a model thread is not idle"
+      | "S" :: t :: kind :: loc :: id :: rest ->
+        incr records; incr steps;
+        let (o, nw) = split_at "->" [] rest in
+        let st = { ltid = n (int_of_string t); lkind = kind; lloc = loc; lid = n (int_of_string id); lold = parse_val o; lnew = parse_val nw } in
+        let t = st.ltid in
+        let call = try Hashtbl.find calls t with Not_found -> [] in
+        let step_from (c : cfg) : cfg list =
+          (* the atomic steps available after tau steps *)
+          L.concat_map (fun c1 ->
+            if (gett c1 t).th_stk = [] then []
+            else L.concat_map (fun ch -> match cstep c1 t ch with
+                | ROk (c2, Some e) when event_matches e st -> [c2]
+                | _ -> []) [CGo; CAlt]) (tau_closure c t) in
+        update (fun c ->
+          let direct = step_from c in
+          let started =
+            L.concat_map (fun c1 ->
+              if (gett c1 t).th_stk <> [] then []
+              else L.concat_map (fun o -> match cstep c1 t (COp o) with
+                  | ROk (c2, Some e) when event_matches e st -> [c2]        (* the start itself is the access (Fresh) *)
+                  | ROk (c2, None) -> step_from c2
+                  | _ -> []) (start_candidates c1 t call st)) (tau_closure c t) in
+          (* owner loads of xheap are not modelled *)
+          let skipped =
+            if st.lkind = "L" && st.lloc = "heap" && (getp c st.lid).pg_tid = t
+               && aval_matches "heap" st.lid (AvHeap (getp c st.lid).pg_heap) st.lold then [c] else [] in
+          direct @ started @ skipped)
+          (Printf.sprintf "the model cannot perform: %s" line);
+        if !steps mod 1 = 0 then check_inv ()
+      | _ -> ()
+    done
+  with End_of_file -> ());
+  Printf.printf "STAT tfree-lockstep lines=%d atomic_steps=%d inv_b_checks=%d max_state_set=%d final_state_set=%d\n"
+    !lineno !steps !inv_checked !maxset (L.length !cands)
+
+let () = Modes.register "tfree-lockstep" lockstep
